@@ -148,6 +148,26 @@ SEEDS = {
            "a little-endian UTF-16/32 diff over 1 MiB: the slice cut splits a code unit, the file silently gets no stats"),
  'C18-e': ('C18', "stats of diffs of at least 250000 bytes are memoised in a module-level dict and handed out by reference",
            "two file sections with equal diffs of at least 250000 bytes, generate_stats on both"),
+ 'C04-e': ('C04', "str content over 1 MiB characters is pre-encoded piecewise with the section's OWN encoding argument (utf-8 when None), before inheritance is resolved",
+           "a preamble / meta of more than 1048576 characters whose encoding comes only from an enclosing non-UTF-8 container"),
+ 'C10-e': ('C10', "_read_header caches parsed headers past line 5000 and returns a cache hit before the valid-sections check",
+           "an illegal repeat of a header already seen beyond logical line 5000"),
+ 'C11-e': ('C11', "_read_until gets a peek()-based fast path for buffered streams that over-consumes at buffer refill boundaries",
+           "a file read through io.BufferedReader / open(..., 'rb') with a header line straddling a buffer refill"),
+ 'C12-e': ('C12', "header option list split bounded to 8 pieces",
+           "a header with 9 or more options in total"),
+ 'C14-e': ('C14', "bulk fast path for one-sided hunks of at least 12000 lines computes last_changed_line after the counter was advanced",
+           "a hunk that only inserts or only deletes 12000 or more lines"),
+ 'C15-e': ('C15', "text over 150000 chars encoded piecewise; the BOM of later pieces is dropped via BOMS.get(encoding) on the name as spelled",
+           "a str section of more than 150000 characters under a non-table spelling of a BOM-emitting codec (UTF-16, utf_16, u16, ...)"),
+ 'C16-e': ('C16', "split_lines works in windows of 192 KiB and loses a multi-byte newline that straddles a window edge",
+           "data over 196608 bytes with a multi-byte newline straddling a multiple of 196608"),
+ 'C17-e': ('C17', "reader uses a peek()-based path for streams that offer peek() and treats a short peek as end of data",
+           "a file read through a BufferedReader / peek-capable stream"),
+ 'C19-e': ('C19', "mimetype choice check only looks at the part before ';'",
+           "preamble_mimetype = 'text/plain;' or any value with a MIME parameter"),
+ 'C20-e': ('C20', "lexer gets a git-header state whose 'similarity index N%' rule leaves the % outside every capture group",
+           "a diff section with 'diff --git ...' followed by 'similarity index 90%'"),
  'C14-c': ('C14', "num_processed_lines returns the line of the last finalised hunk instead of the loop position",
            "ignore_garbage=True with non-hunk lines after the last hunk, or no hunks at all"),
 }
